@@ -50,10 +50,20 @@ Print Assumptions c13_count_pass.
    (3, 1) the real function raises ValueError (np.zeros(hi - lo): negative dimensions)
    while the model, whose subtraction is truncated, answers with the 0-row matrix
    (c13_example_reversed_slice); the only caller that passes a slice,
-   _transpose_sparse_matrix_on_disk_v2, never produces one (c13_parallel_slices). *)
+   _transpose_sparse_matrix_on_disk_v2, never produces one (c13_parallel_slices).
+   Hypothesis on duplicates (audit 3, item 11): with a value array, no (row, column) pair
+   is stored twice (use_data = true -> no_dup_minor m).  The entries of an output row are
+   ordered by np.argsort of their column (csc_to_csr.py:229, 272), which is not stable
+   above 16 elements: exact duplicates come out with their VALUES in an order that
+   depends on the chunking (and, in the parallel version, on the worker count), whereas
+   the model's sort is stable; pointer and index arrays are not affected
+   (c13_example_duplicates_excluded).  The proof does not use the hypothesis, the
+   FAITHFULNESS of the model does; the correspondence check generates duplicate-free
+   inputs only (ctx.assumptions). *)
 Theorem c13_transpose_exact : forall m n_major use_data indices_max sl E L Lc,
   wf_comp m indices_max -> length (ptr m) = S n_major ->
   (use_data = true -> length (dat m) = length (idx m)) ->
+  (use_data = true -> no_dup_minor m) ->
   (forall s, sl = Some s -> fst s <= snd s) ->
   1 <= L -> 1 <= Lc ->
   exists t, transpose m use_data indices_max sl E L Lc = Ok t /\
@@ -96,10 +106,13 @@ Print Assumptions c13_transpose_pattern.
    stored entries - on a non-monotone array np.searchsorted and major_of differ, e.g. on
    [2; 0; 3] numpy answers columns 1, 1, 1 and major_of 0, 0, 1:
    c13_example_nonmonotone_ptr; the proof does not use the hypothesis, the FAITHFULNESS
-   of the model does), a slice with lo <= hi, chunk sizes >= 1, consistent array lengths
-   and (without a slice) row indices below indices_max. *)
+   of the model does), with a value array no (row, column) pair stored twice (see
+   c13_transpose_exact; again a hypothesis of faithfulness, not of the proof), a slice with
+   lo <= hi, chunk sizes >= 1, consistent array lengths and (without a slice) row indices
+   below indices_max. *)
 Theorem c13_transpose_is_spec : forall m use_data indices_max sl E L Lc,
   hd 1 (ptr m) = 0 /\ mono (ptr m) /\ last (ptr m) 0 = length (idx m) ->
+  (use_data = true -> no_dup_minor m) ->
   (forall s, sl = Some s -> fst s <= snd s) ->
   1 <= L -> 1 <= Lc ->
   (use_data = true -> length (dat m) = length (idx m)) ->
@@ -143,14 +156,28 @@ Print Assumptions c13_transpose_empty_slice.
 
 (* ---- _transpose_sparse_matrix_on_disk_v2 (n_processors >= 1 workers, each transposing
    a slice of max(1, ceil(indices_max / n_processors)) rows, pieces joined in range
-   order with pointer offsets): it returns, and returns exactly what the serial
+   order with pointer offsets): on an input that stores no (row, column) pair twice (or
+   without a value array) it returns, and returns exactly what the serial
    function computes on the whole range (c13_transpose_exact: out = transpose_spec ...
    None, so every clause proved there holds for it), for every worker count and every
    budget - more workers than rows, slices without entries, fewer stored values than
    rows, no stored value, no row at all included (the former findings F2w, F4, F4z,
-   F4m). *)
+   F4m).
+   Hypothesis (audit 3, item 11): with a value array, no (row, column) pair is stored
+   twice.  On a column of 40 entries with rows i mod 3 and values 0..39 (the matrix of
+   c13_example_duplicates_excluded) the real function, run here, returns in output row 1
+     n_processors=1: data [13, 4, 31, 28, 25, 16, 19, 22, 7, 1, 34, 10, 37]
+     n_processors=2: data [10, 7, 22, 19, 13, 16, 4, 1, 28, 25, 34, 31, 37]
+     n_processors=3: data [1, 4, 7, 10, 13, 16, 19, 22, 25, 28, 31, 34, 37]
+   (the auditor's run: n_proc 1 row 1 data [11.0, 14.0, 2.0, 5.0, ...], n_proc 2 row 1 data
+   [2.0, 5.0, 8.0, 11.0, ...]): np.argsort is not stable above 16 elements, so the order of
+   the values of exact duplicates depends on the worker count; indptr [0, 14, 27, 40] and
+   the indices are the same in the three runs.  The model (stable sort) answers the
+   n_processors=3 row for every worker count, so without the hypothesis the theorem would
+   claim a worker-count independence the code does not have. *)
 Theorem c13_parallel_concat : forall m use_data indices_max n_proc E L Lc,
   hd 1 (ptr m) = 0 /\ mono (ptr m) /\ last (ptr m) 0 = length (idx m) ->
+  (use_data = true -> no_dup_minor m) ->
   1 <= n_proc -> 1 <= L -> 1 <= Lc -> (use_data = true -> length (dat m) = length (idx m)) ->
   Forall (fun r => r < indices_max) (idx m) ->
   transpose_v2 m use_data indices_max n_proc E L Lc = Ok (transpose_spec m use_data indices_max None).
@@ -160,7 +187,9 @@ Print Assumptions c13_parallel_concat.
 (* the slices the parallel version hands to its workers (v2_slices indices_max n_proc =
    range(0, indices_max, max(1, ceil(indices_max / n_proc))) with i1 = min(indices_max,
    i0 + size); last conjunct: these ARE the slices transpose_v2 maps the serial function
-   over): they tile [0, indices_max) - the first starts at 0, each starts where the
+   over - that conjunct is the definition of v2_slices unfolded in transpose_v2: by
+   construction of the model; the content is in the tie, which compares transpose_v2 with
+   the real _transpose_sparse_matrix_on_disk_v2 for 1..4 workers): they tile [0, indices_max) - the first starts at 0, each starts where the
    previous one ended, the last ends at indices_max -, each has lo < hi <= indices_max, so
    none is the reversed slice excluded in c13_transpose_exact, and there are at most
    n_proc of them. *)
@@ -188,10 +217,14 @@ Print Assumptions c13_parallel_slices.
    range, a well-formed compressed matrix (pointer array from 0, monotone, indices_max + 1
    entries, ending at the number of stored entries = that of the input; column indices
    below the number of columns, sorted - strictly when the input stores no pair twice -
-   inside every row) whose dense view is the transpose of the dense view of the input *)
+   inside every row) whose dense view is the transpose of the dense view of the input.
+   Hypothesis (audit 3, item 11; see c13_parallel_concat for the real outputs): with a
+   value array no (row, column) pair is stored twice - otherwise the values of the real
+   result depend on the worker count. *)
 Theorem c13_parallel_exact : forall m n_major use_data indices_max n_proc E L Lc,
   wf_comp m indices_max -> length (ptr m) = S n_major ->
   (use_data = true -> length (dat m) = length (idx m)) ->
+  (use_data = true -> no_dup_minor m) ->
   1 <= n_proc -> 1 <= L -> 1 <= Lc ->
   exists out, transpose_v2 m use_data indices_max n_proc E L Lc = Ok out /\
     (exists t, transpose m use_data indices_max None E L Lc = Ok t /\ t_out t = out) /\
@@ -594,6 +627,37 @@ Example c13_example_parallel_exact :
   map (fun r => map (fun j => cell c13_ex j r) (seq 0 4)) (seq 0 3) =
   [[5; 0; 0; 8]; [0; 0; 0; 0]; [6; 0; 7; 9]]%Z.
 Proof. vm_compute. split; reflexivity. Qed.
+(* audit 3, item 11: one column of 40 stored entries, rows i mod 3, values 0..39 - well
+   formed, but every (row, column) pair is stored 13 or 14 times, so it violates
+   no_dup_minor and is EXCLUDED from c13_transpose_exact / c13_transpose_is_spec /
+   c13_parallel_concat / c13_parallel_exact with a value array.  That is exactly where the
+   real result depends on the worker count (outputs quoted at c13_parallel_concat); the
+   model's answer for output row 1, whatever the worker count, is the stable order
+   1, 4, ..., 37.  c13_ex (c13_example_wf) satisfies no_dup_minor: the hypothesis is
+   satisfiable. *)
+Definition c13_dup : comp :=
+  {| ptr := [0; 40]; idx := map (fun i => i mod 3) (seq 0 40); dat := map Z.of_nat (seq 0 40) |}.
+Example c13_example_duplicates_excluded :
+  wf_comp c13_dup 3 /\ length (ptr c13_dup) = 2 /\ length (dat c13_dup) = length (idx c13_dup) /\
+  ~ no_dup_minor c13_dup /\
+  (forall n_proc, In n_proc [1; 2; 3] ->
+     match transpose_v2 c13_dup true 3 n_proc 2 7 5 with
+     | Ok out => ptr out = [0; 14; 27; 40] /\
+                 slice (dat out) 14 27 = [1; 4; 7; 10; 13; 16; 19; 22; 25; 28; 31; 34; 37]%Z
+     | Err _ => False
+     end).
+Proof.
+  split.
+  { split; [reflexivity|]. split; [reflexivity|]. split.
+    - cbn. lia.
+    - apply Forall_forall. intros x Hx. vm_compute in Hx.
+      repeat (destruct Hx as [Hx|Hx]; [subst x; lia|]). destruct Hx. }
+  split; [reflexivity|]. split; [reflexivity|]. split.
+  - intros ND. specialize (ND 0 ltac:(cbn; lia)). vm_compute in ND.
+    apply NoDup_cons_iff in ND. destruct ND as [NI _]. apply NI. cbn. tauto.
+  - intros n_proc Hn. cbn [In] in Hn.
+    destruct Hn as [Hn|[Hn|[Hn|[]]]]; subst n_proc; vm_compute; split; reflexivity.
+Qed.
 (* copy_layer_to_x, dense layer: a 3 x 3 array with the chunk shape (2, 2) and as a
    contiguous dataset meets the hypotheses of c13_copy_layer_dense(_total) and is copied
    as it is; an array without rows (contiguous) and a chunk shape beyond the extent are
